@@ -28,14 +28,14 @@ def envs(snap, shard_args_list):
 def floors(m, tier):
     u, k = BUDGET[tier]
     c = m.counters
-    return {"finder-level calls": (c.get("finder_calls", 0), u * k),
+    return {"finder-level calls": (c.get("finder_calls", 0), u * k * 7 // 10),
             "non-empty finds": (c.get("nonempty", 0), u * k // 4),
             "Sid.exists evaluations": (c.get("sid_exists", 0), u * 10),
             "Sid.exists True": (c.get("sid_exists_true", 0), u * 3),
             "children evaluations": (c.get("children", 0), u * 5),
             "children non-empty": (c.get("children_nonempty", 0), u * 2),
             "siblings evaluations": (c.get("siblings", 0), u * 5),
-            "creates": (c.get("creates", 0), u * 2),
+            "creates": (c.get("creates", 0), u),
             "parent-exists evaluations": (c.get("parent_exists", 0), u * 5),
             "self-in-siblings evaluations": (c.get("self_in_siblings", 0), u * 3),
             "finds whose first result is untyped": (c.get("first_result_untyped", 0), 20)}
